@@ -292,3 +292,30 @@ func init() {
 		}
 	}
 }
+
+func init() {
+	exploreExtra["writeswallow"] = func(p *Prog) {
+		c := NewCtx(p, "X", "quick")
+		c.quiet = true
+		ruleWriteSwallow(c, "R-WRITE-SWALLOW", p.ModulePkgs())
+		n := 0
+		for _, o := range c.Obls {
+			n++
+			if !o.OK {
+				fmt.Printf("%s\t%s\t%v\t%s\n", o.Pos, o.Instance, o.OK, short(o.Msg, 200))
+			}
+		}
+		fmt.Println(n, "instances")
+	}
+}
+
+func init() {
+	exploreExtra["errseen"] = func(p *Prog) {
+		c := NewCtx(p, "X", "quick")
+		c.quiet = true
+		ruleErrAllPaths(c, "R-ERRSEEN", p.ModulePkgs())
+		for _, o := range c.Obls {
+			fmt.Printf("%s\t%s\t%v\t%s\n", o.Pos, o.Instance, o.OK, short(o.Msg, 120))
+		}
+	}
+}
